@@ -683,6 +683,163 @@ func C03(c *core.Ctx) {
 		}
 	}
 
+	// ---- R3.9 the standalone name decoder consumes its whole input: ReadName returns a name
+	// only on the edge on which the component reader reported the end of the input, or on
+	// an edge asserting that nothing remains (a test against 0 — not against a "smallest
+	// component" size: 08 00 is a component of two bytes).
+	if rn := c.Fn("R3.9", "std/encoding", "", "ReadName"); rn != nil {
+		var okRets []ssa.Instruction
+		core.Instrs(rn, func(in ssa.Instruction) {
+			if r, ok := in.(*ssa.Return); ok && len(r.Results) == 2 && core.IsNilConst(r.Results[1]) {
+				okRets = append(okRets, in)
+			}
+		})
+		eof := &core.Atom{Name: "component reader reported io.EOF", Match: func(cond ssa.Value) (int, int) {
+			op, x, y, ok := core.Cmp(cond)
+			if !ok || (op != token.EQL && op != token.NEQ) {
+				return 0, 0
+			}
+			isEOF := func(v ssa.Value) bool {
+				u, isU := core.Strip(v).(*ssa.UnOp)
+				if !isU || u.Op != token.MUL {
+					return false
+				}
+				g, isG := u.X.(*ssa.Global)
+				return isG && g.Name() == "EOF" && g.Pkg.Pkg.Path() == "io"
+			}
+			if isEOF(x) || isEOF(y) {
+				return core.Iff(op == token.EQL)
+			}
+			return 0, 0
+		}}
+		drained := &core.Atom{Name: "nothing remains", Match: func(cond ssa.Value) (int, int) {
+			op, x, y, ok := core.Cmp(cond)
+			if !ok {
+				return 0, 0
+			}
+			isCall := func(v ssa.Value, name string) bool {
+				cl, isC := core.StripConv(v).(*ssa.Call)
+				return isC && cl.Call.IsInvoke() && cl.Call.Method.Name() == name
+			}
+			// Length()-Pos() op 0
+			if b, isB := core.StripConv(x).(*ssa.BinOp); isB && b.Op == token.SUB && isCall(b.X, "Length") && isCall(b.Y, "Pos") {
+				if k, isC := core.ConstInt(y); isC {
+					switch {
+					case (op == token.GTR && k == 0) || (op == token.GEQ && k == 1) || (op == token.NEQ && k == 0):
+						return -1, 1
+					case (op == token.LEQ && k == 0) || (op == token.LSS && k == 1) || (op == token.EQL && k == 0):
+						return 1, -1
+					}
+				}
+				return 0, 0
+			}
+			// Pos() op Length()
+			if isCall(x, "Pos") && isCall(y, "Length") {
+				switch op {
+				case token.LSS:
+					return -1, 1
+				case token.GEQ, token.EQL:
+					return 1, -1
+				}
+			}
+			return 0, 0
+		}}
+		g := core.GateDeep(rn, okRets, pos(eof), pos(drained))
+		c.Decide(len(okRets) > 0 && g.OK && g.PassEdges > 0, "R3.9", "standalone-name-decoder-consumes-input", p.Pos(rn.Pos()), "ReadName returns a name only at the end of its input", "ReadName can return a name while bytes of its input are unread (the loop ends on a test other than 'end of input'): NameFromBytes(n.Bytes()) silently drops a final component — e.g. an empty-valued one, 08 00 — while the packet decoder returns the full name")
+	}
+	// ---- R3.10 an optional field of the packet API reaches the model as it was given: the
+	// value stored into an optional element of the Data / Interest model is the config's
+	// pointer (possibly converted) — it is replaced by "absent" only where the config's
+	// pointer is itself nil, never depending on the value (0 is a legal FreshnessPeriod).
+	for _, mk := range []string{"MakeData", "MakeInterest"} {
+		fn := c.Fn("R3.10", "std/ndn/spec_2022", "Spec", mk)
+		if fn == nil || len(fn.Params) < 3 {
+			continue
+		}
+		config := ssa.Value(fn.Params[2])
+		isCfgField := func(v ssa.Value) (string, bool) {
+			root, path := core.FieldPath(v)
+			if len(path) == 1 && (root == config || core.Same(root, config)) {
+				return path[0], true
+			}
+			return "", false
+		}
+		nOpt := 0
+		core.Instrs(fn, func(in ssa.Instruction) {
+			st, ok := in.(*ssa.Store)
+			if !ok {
+				return
+			}
+			fa, ok := st.Addr.(*ssa.FieldAddr)
+			if !ok {
+				return
+			}
+			if _, isPtr := st.Val.Type().Underlying().(*types.Pointer); !isPtr {
+				return
+			}
+			tn, fld := core.FieldAddrName(fa)
+			if tn != "Data" && tn != "MetaInfo" && tn != "Interest" {
+				return
+			}
+			// does the stored value derive from a config field at all?
+			var src string
+			bad := ""
+			seen := map[ssa.Value]bool{}
+			var walk func(v ssa.Value, viaPhi *ssa.Phi, edge int)
+			walk = func(v ssa.Value, viaPhi *ssa.Phi, edge int) {
+				v = core.Strip(v)
+				if seen[v] {
+					return
+				}
+				seen[v] = true
+				if f, okF := isCfgField(v); okF {
+					src = f
+					return
+				}
+				switch x := v.(type) {
+				case *ssa.Call:
+					if cal := x.Call.StaticCallee(); cal != nil && cal.Origin() != nil && cal.Origin().Name() == "ConvIntPtr" && len(x.Call.Args) == 1 {
+						walk(x.Call.Args[0], viaPhi, edge)
+					}
+				case *ssa.Phi:
+					for i, e := range x.Edges {
+						walk(e, x, i)
+					}
+				case *ssa.Const:
+					if x.IsNil() && viaPhi != nil {
+						// absent: allowed only where the config pointer is nil
+						pred := viaPhi.Block().Preds[edge]
+						okNil := false
+						for _, f := range core.EdgeFacts(fn, &core.Atom{Name: "config field nil", Match: func(cond ssa.Value) (int, int) {
+							op, a, b, okC := core.Cmp(cond)
+							if !okC || (op != token.EQL && op != token.NEQ) || !core.IsNilConst(b) {
+								return 0, 0
+							}
+							if _, isF := isCfgField(a); !isF {
+								return 0, 0
+							}
+							return core.Iff(op == token.EQL)
+						}}) {
+							if f.Holds && (f.E.To == pred || (f.E.To != viaPhi.Block() && len(f.E.To.Preds) == 1 && f.E.To.Dominates(pred)) || (f.E.From == pred && f.E.To == viaPhi.Block())) {
+								okNil = true
+							}
+						}
+						if !okNil {
+							bad = c.Pos(viaPhi)
+						}
+					}
+				}
+			}
+			walk(st.Val, nil, 0)
+			if src == "" {
+				return
+			}
+			nOpt++
+			c.Decide(bad == "", "R3.10", "optional-field-passed-as-given:"+mk+":"+tn+"."+fld, c.Pos(in), "the element is absent only where config."+src+" is nil", mk+" replaces config."+src+" by 'absent' depending on its value (at "+bad+"): a legal boundary value (FreshnessPeriod 0) is not encoded and decodes as absent")
+		})
+		c.Floor("R3.10", "optional config fields stored into the model by "+mk, nOpt, 2)
+	}
+
 	// ---- R3.6 the segmented reader steps over EVERY exhausted segment: a wire may hold
 	// empty segments, also several in a row (the no-copy encoder emits one for an empty
 	// content buffer). Every store that advances a WireReader's segment index inside a
